@@ -91,13 +91,29 @@ Theorem C14_assign : forall t key v t', Rect t -> assign t key v = Ok t' ->
 Proof. exact assign_rect. Qed.
 Print Assumptions C14_assign.
 
+(* del table[key] for a column other than the index, or a scalar entry *)
+Theorem C14_delete : forall t key t', Rect t -> key <> r_index t -> delete t key = Ok t' ->
+  Rect t' /\ rlen t' = rlen t /\ r_index t' = r_index t.
+Proof. exact delete_rect. Qed.
+Print Assumptions C14_delete.
+
 (* any finite chain of derivations and assignments (a failing operation raises
    and leaves the table as it was) keeps the table rectangular; the only side
-   condition, checked along the chain, is that a column selection names
-   columns/expressions and no name twice *)
+   conditions, checked along the chain, are that a column selection names
+   columns/expressions and no name twice, and that the index column is not
+   deleted *)
 Theorem C14_chain : forall ops t, Rect t -> rops_okb t ops = true -> Rect (rfinal t ops).
 Proof. exact chain_rect. Qed.
 Print Assumptions C14_chain.
+
+(* ... and so is every table produced on the way: each current table and each
+   table derived from a current table that stays current (OStay: selections
+   and assignments interleaved on one source table, including a scalar entry
+   promoted to a column by an array of len(table) and deletions) *)
+Theorem C14_chain_every_table : forall ops1 o ops2 t t',
+  Rect t -> rops_okb t (ops1 ++ o :: ops2) = true -> rstep (rfinal t ops1) o = Ok t' -> Rect t'.
+Proof. exact chain_every_table. Qed.
+Print Assumptions C14_chain_every_table.
 
 (* non-vacuity: name=2 (index), a=4, b=6 columns of 3 rows, s=8 a scalar;
    a chain through every operation satisfies the side conditions and ends in a
@@ -105,7 +121,9 @@ Print Assumptions C14_chain.
 Definition ex_data : rdata :=
   [(2%N, EArr [1; 2; 3]%Z); (4%N, EArr [10; 20; 30]%Z); (8%N, EVal 7%Z); (6%N, EArr [5; 6; 7]%Z)].
 Definition ex_ops : list rop :=
-  [ORows (IArr [2; 0; -1]%Z); OCols [CName 4%N; CExpr 100%N]; OAddSelf; OMul 2%Z; OSet 10%N (VArr (repeat 0%Z 12));
+  [OStay (ORows (ISlice None (Some 2%Z))); OSet 8%N (VArr [0; 0; 0]%Z); OStay (ORows (ISlice None (Some 2%Z)));
+   ODel 8%N; OSet 8%N (VScalar 1%Z);
+   ORows (IArr [2; 0; -1]%Z); OCols [CName 4%N; CExpr 100%N]; OAddSelf; OMul 2%Z; OSet 10%N (VArr (repeat 0%Z 12));
    OCopy; OAddRows (ISlice (Some 1%Z) (Some 3%Z)); OConcat [ISlice None None; IArr [0%Z]]; OT; OMul 0%Z].
 
 Example C14_nonvacuous :
@@ -114,6 +132,11 @@ Example C14_nonvacuous :
               [Ok ([(2%N, 3%nat); (4%N, 3%nat); (6%N, 3%nat)], [8%N], 2%N);
                Ok ([(2%N, 3%nat); (4%N, 3%nat); (100%N, 3%nat)], [8%N], 2%N);
                Ok ([(2%N, 6%nat); (4%N, 6%nat); (100%N, 6%nat)], [8%N], 2%N)] /\
+            (* a scalar entry promoted to a column, then a row selection from the same table *)
+            rrun t [OStay (ORows (ISlice None (Some 2%Z))); OSet 8%N (VArr [0; 0; 0]%Z); OStay (ORows (ISlice None (Some 2%Z)))] =
+              [Ok ([(2%N, 2%nat); (4%N, 2%nat); (6%N, 2%nat)], [8%N], 2%N);
+               Ok ([(2%N, 3%nat); (4%N, 3%nat); (6%N, 3%nat); (8%N, 3%nat)], [], 2%N);
+               Ok ([(2%N, 2%nat); (4%N, 2%nat); (6%N, 2%nat); (8%N, 2%nat)], [], 2%N)] /\
             shape_of (rfinal t ex_ops) =
               ([(0%N, 4%nat); (1%N, 4%nat); (3%N, 4%nat); (5%N, 4%nat); (7%N, 4%nat); (9%N, 4%nat); (11%N, 4%nat); (13%N, 4%nat);
                 (15%N, 4%nat); (17%N, 4%nat); (19%N, 4%nat); (21%N, 4%nat); (23%N, 4%nat); (25%N, 4%nat); (27%N, 4%nat);
